@@ -1017,6 +1017,38 @@ fn switch_and_cast_corpus(ctx: CtxK) -> Vec<Node> {
     }
     c.extend([l(Older(10)), u(Older(10)), and_v(v(pk(k0)), l(After(100))), OrD(bx(pk(k0)), bx(t(Older(10)))),
         DupIf(bx(v(t(Older(10))))), and_v(v(pk(k0)), DupIf(bx(v(Older(10)))))]);
+    // TWO locks of one opcode in EVERY ordered pair of child positions of every combinator, for
+    // every ordered pair of units (height/time, time/height, and the unmixed controls): the
+    // timelock summary of a combinator depends on WHICH children share a path (and-combined) and
+    // which are alternatives (or-combined).  A lock-carrying child that is B/dissatisfiable for the
+    // guard positions: j:and_v(v:pk,n:LOCK); W for the thresh / and_b / or_b tails: a: of it.
+    let guard = |key: u32, lock: Node| NonZero(bx(and_v(v(pk(key)), ZeroNotEqual(bx(lock)))));
+    let signed = |key: u32, lock: Node| and_v(v(pk(key)), lock);
+    let locks: [(fn(u32) -> Node, u32, u32); 2] = [(|n| Older(n), 10, 4_194_305), (|n| After(n), 100, 500_000_001)];
+    for (mk, h, tm) in locks {
+        for (a, b2) in [(h, tm), (tm, h), (h, h + 1), (tm, tm + 1)] {
+            let (ga, gb) = (guard(k0, mk(a)), guard(k1, mk(b2)));
+            let (sa, sb) = (signed(k0, mk(a)), signed(k1, mk(b2)));
+            c.extend([
+                // andor(X,Y,Z): (X,Y) share a path, (X,Z) do not, (Y,Z) do not
+                AndOr(bx(ga.clone()), bx(sb.clone()), bx(pk(k2))),
+                AndOr(bx(ga.clone()), bx(pk(k2)), bx(sb.clone())),
+                AndOr(bx(pk(k2)), bx(sa.clone()), bx(sb.clone())),
+                // or_*(X,Z): alternatives; and_*(X,Y): one path
+                OrD(bx(ga.clone()), bx(sb.clone())), OrB(bx(ga.clone()), bx(Alt(bx(gb.clone())))), OrI(bx(sa.clone()), bx(sb.clone())),
+                and_v(OrC(bx(ga.clone()), bx(v(sb.clone()))), pk(k2)),
+                and_v(v(sa.clone()), sb.clone()), AndB(bx(sa.clone()), bx(Alt(bx(sb.clone())))),
+                // thresh: k = n (one path), k = 1 (alternatives), 1 < k < n (some pairs share a path)
+                Thresh(2, vec![ga.clone(), Alt(bx(gb.clone()))]), Thresh(1, vec![ga.clone(), Alt(bx(gb.clone()))]),
+                Thresh(2, vec![ga.clone(), Alt(bx(gb.clone())), Swap(bx(pk(k2)))]),
+                Thresh(2, vec![pk(k2), Alt(bx(ga.clone())), Alt(bx(gb.clone()))]),
+                // one level down: the pair split between a combinator and its grandchild
+                AndOr(bx(ga.clone()), bx(OrD(bx(pk(k2)), bx(sb.clone()))), bx(pk(k3))),
+                AndOr(bx(ga.clone()), bx(pk(k3)), bx(OrD(bx(pk(k2)), bx(sb.clone())))),
+                OrD(bx(pk(k3)), bx(AndOr(bx(ga.clone()), bx(sb.clone()), bx(pk(k2))))),
+            ]);
+        }
+    }
     c
 }
 
